@@ -9,7 +9,7 @@
     [BSEND c t n frame*n oracle_ms*n]      -> [TI skipped; VERIF BLOCKING dump]
          one write of n requests, no reply awaited (oracle_ms: -2 none, -1 refused timeout,
          0 forever, else milliseconds)
-    [BRECV c t]                            -> [TI 0; frames received on c since the last BRECV]
+    [BRECV c t]                            -> [TI 0; frames received on c since the last BRECV]   (nothing once the client has gone)
     [BCLOSE c t]                           -> [TI skipped; TI owed; frames not yet read]   the client goes away
     [BDUMP t]                              -> VERIF BLOCKING dump
 
@@ -152,10 +152,11 @@ Definition blk_op (r : rstate) (op : list tok) : list tok * rstate :=
             let r' := settle r t (r_s r, r_b r) in
             if b_crashed (r_b r') then (dead_out, r') else
             let all := frames_of (r_b r') c in
-            let fresh := skipn (Z.to_nat (zget (r_read r') c)) all in
+            let rd := zget (r_read r') c in      (* -1: the client has gone *)
+            let fresh := if rd <? 0 then [] else skipn (Z.to_nat rd) all in
             (TI 0 :: enc_frames (map canon fresh),
              {| r_s := r_s r'; r_b := r_b r'; r_now := r_now r'; r_sent := r_sent r';
-                r_read := zset_ c (len all) (r_read r'); r_fin := r_fin r' |})
+                r_read := (if rd <? 0 then r_read r' else zset_ c (len all) (r_read r')); r_fin := r_fin r' |})
         | _ => ([TB (bs "BADOP")], r)
         end
       else if beq name (bs "BDUMP") then
@@ -171,7 +172,10 @@ Definition blk_op (r : rstate) (op : list tok) : list tok * rstate :=
             else
               let b1 := if is_blocked (r_b r) c then with_dead (r_b r) (c :: b_dead (r_b r)) else drop_conn (r_b r) c in
               let r' := settle r t (del_conn (r_s r) c, b1) in
-              (TI 0 :: TI o :: enc_frames (map canon (unread r c)), r')
+              (* the client is gone: a later BRECV of this connection reports nothing *)
+              (TI 0 :: TI o :: enc_frames (map canon (unread r c)),
+               {| r_s := r_s r'; r_b := r_b r'; r_now := r_now r'; r_sent := r_sent r';
+                  r_read := zset_ c (-1) (r_read r'); r_fin := r_fin r' |})
         | _ => ([TB (bs "BADOP")], r)
         end
       else ([TB (bs "BADOP")], r)
